@@ -21,7 +21,9 @@ def link_tree(r):
     """entries below `top`: root/ (searched), out/ (outside), plus links"""
     ents = []
     dirs = ["root"]
-    for base, n in (("root", r.range(2, 6)), ("out", r.range(1, 3))):
+    # a second outside directory whose name merely *starts with* the root's name: outside the root all the same
+    sibling = [("root-old", r.range(0, 2))] if r.chance(1, 2) else []
+    for base, n in [("root", r.range(2, 6)), ("out", r.range(1, 3))] + sibling:
         ents.append({"path": base, "kind": "d", "mode": 0o755, "mtime": 1700000000})
         cur = [base]
         for i in range(n):
@@ -45,7 +47,9 @@ def link_tree(r):
         where = r.choice(dirs)
         name = "%s/l%d" % (where, i)
         kind = r.below(10)
-        if kind < 3:
+        if sibling and i == 0:
+            tgt = r.choice([d for d in alld if d.startswith("root-old")])
+        elif kind < 3:
             tgt = r.choice(alld)                       # directory inside or outside the root
         elif kind < 4:
             tgt = "."                                  # the top: above the root
